@@ -156,10 +156,13 @@ class SocketShim:
   def ntohs(x): return _swap(x, 2) if isinstance(x, (SymInt, SymBool)) else _socket.ntohs(x)
   @staticmethod
   def inet_aton(s):
+    if isinstance(s, core.NonAsciiText): raise OSError("illegal IP address string passed to inet_aton")   # the C call rejects every non-ASCII text
     if isinstance(s, core.SymStr):
-      # model: exactly four decimal groups (the only form POX itself produces); anything else is rejected like the C call
+      # model: exactly four decimal groups (the only form POX itself produces); the C call also takes 1-3 groups and hex/octal groups:
+      # those are not modelled (inconclusive), text without any digit group structure is rejected like the C call
       parts = s.split('.')
-      if len(parts) != 4: raise OSError("illegal IP address string passed to inet_aton")
+      if len(parts) > 4 or len(s) == 0: raise OSError("illegal IP address string passed to inet_aton")
+      if len(parts) != 4: raise Inconclusive("inet_aton: fewer than four groups (classful short forms are not modelled)")
       out = []
       for p_ in parts:
         if len(p_) == 0 or len(p_) > 3: raise OSError("illegal IP address string passed to inet_aton")
